@@ -123,3 +123,8 @@ package evaluator
 //@   props C08 C13
 //@   ensures[C08 C13 seedable-source] err == nil && is(r, *numVal) && fresh(r) && ncalls("(*Rand).Float64") == 1 && callarg("(*Rand).Float64", 1, 0) == RandSource && r.(*numVal).V == callres("(*Rand).Float64", 1, 0)
 //@   modifies class rand.
+
+// BuiltinDecls builds the declaration table handed to the parser.
+//@ func BuiltinDecls() (b parser.Builtins)
+//@   noverify used by the evy command (C18)
+//@   modifies nothing
